@@ -69,6 +69,14 @@ def cases(tier, seed, ctx=None):
             for frm, to in ((0, -1), (2, -1), (1, 3)):
                 if frm <= n:
                     yield ("copier", [c, 0, bs, frm, to, NOFAIL + [0, 0, 1], [START] + [TURN] * (n // bs + 3), [14, 0]], "ra-sizeless-source")
+    # the source is closed under the copier between two blocks (it then fails every read AND reports being at its end): the error is
+    # signalled, then the single completion
+    for n in (10, 40):
+        c = content(n)
+        for bs in (3, 8):
+            for k in (1, 2, n // bs):
+                ops = [START] + [TURN] * k + [[8]] + [TURN] * 4
+                yield ("copier", [c, 0, bs, 0, -1, NOFAIL, ops, [14, 3]], "ra-source-closed-midway")
     # multi-block contents
     for n in (40, 255, 256, 257, 1000):
         c = content(n)
